@@ -3882,10 +3882,19 @@ class BoutMesh(Mesh):
             # member
             chi.ylow = 2.0 * numpy.pi * self.zShift.ylow / self.ShiftAngle.centre
             # set to NaN in divertor leg regions where chi is not valid
+            # Note: jyseps* do not include the y-boundary guard cells, but the arrays
+            # do: myg cells at the lower target (if there is a lower leg) and 2*myg at the
+            # upper targets (if there is a second X-point)
+            lower_guards = myg if jyseps1_1 >= 0 else 0
+            upper_guards = 2 * myg if jyseps2_1 != jyseps1_2 else 0
+            lower_legs_end = jyseps1_1 + lower_guards + 1
+            upper_legs_start = jyseps2_1 + lower_guards + 1
+            upper_legs_end = jyseps1_2 + lower_guards + upper_guards + 1
+            outer_lower_leg_start = jyseps2_2 + lower_guards + upper_guards + 1
             for c in [chi.centre, chi.xlow, chi.ylow]:
-                c[:, : jyseps1_1 + 1] = float("nan")
-                c[:, jyseps2_1 + 1 : jyseps1_2 + 1] = float("nan")
-                c[:, jyseps2_2 + 1 :] = float("nan")
+                c[:, :lower_legs_end] = float("nan")
+                c[:, upper_legs_start:upper_legs_end] = float("nan")
+                c[:, outer_lower_leg_start:] = float("nan")
             chi.attributes["bout_type"] = "Field2D"
             self.writeArray("chi", chi, f)
 
